@@ -393,7 +393,7 @@ package altair
 //@     invariant old(spec != nil && epc != nil && state != nil && agg != nil && spec.SLOTS_PER_EPOCH != 0 && spec.SYNC_COMMITTEE_SIZE < 1048576 && epc.CurrentSyncCommittee != nil && len(epc.CurrentSyncCommittee.CachedPubkeys) >= spec.SYNC_COMMITTEE_SIZE && len(epc.CurrentSyncCommittee.Indices) >= spec.SYNC_COMMITTEE_SIZE && (forall t :: {epc.CurrentSyncCommittee.CachedPubkeys[t]} 0 <= t && t < spec.SYNC_COMMITTEE_SIZE ==> epc.CurrentSyncCommittee.CachedPubkeys[t] != nil)) ==> (forall k :: {bal_at(n_set_bal, st_bals(state), k)} bal_at(n_set_bal, st_bals(state), k) == sync_bal(old(n_set_bal), st_bals(state), epc.CurrentSyncCommittee.Indices, agg.SyncCommitteeBits, participantReward, k, i))
 
 //@ func ProcessSyncCommitteeUpdates(ctx, spec, epc, state) err
-//@   property C18
+//@   property C18 C02
 //@   panics off
 //@   requires ctx != nil
 //@   opt weakcalls
@@ -406,6 +406,8 @@ package altair
 //@   loop *
 //@     invariant ctx_t >= old(ctx_t) && (old(ctx_seen) || !ctx_seen)
 //@     invariant ctx_t > old(ctx_t) ==> !ctx_cancelled(ctx, old(ctx_t))
+//@   assigns ghost(n_rotate_sync)
+//@   ensures c02_rotation: err == nil && spec != nil && epc != nil && epc.NextEpoch != nil && spec.EPOCHS_PER_SYNC_COMMITTEE_PERIOD != 0 ==> n_rotate_sync == old(n_rotate_sync) + ite(old(epc.NextEpoch.Epoch) % spec.EPOCHS_PER_SYNC_COMMITTEE_PERIOD == 0, 1, 0)
 
 //@ func (state *BeaconStateView) ProcessEpoch(ctx, spec, epc) err
 //@   property C18
@@ -425,6 +427,7 @@ package altair
 //@   assigns ghost(n_biter), ghost(biter_pos), ghost(biter_reg), ghost(n_set_eb)
 //@   assigns ghost(n_set_bal)
 //@   assigns ghost(n_aelig_write), ghost(n_set_act), ghost(last_set_act_v), ghost(last_set_act_val)
+//@   assigns ghost(n_rotate_sync)
 //@   assigns ghost(n_eth1_reset), ghost(n_slash_reset), ghost(last_slash_reset), ghost(n_set_mix), ghost(last_set_mix_epoch), ghost(last_set_mix), ghost(n_hist_update)
 //@   assigns ghost(n_set_prevjust), ghost(set_prevjust), ghost(n_set_curjust), ghost(set_curjust), ghost(n_set_fin), ghost(set_fin), ghost(n_set_jbits), ghost(set_jbits)
 //@   assigns ghost(n_viter), ghost(viter_pos), ghost(viter_reg), ghost(n_val_write), ghost(n_wd_write), ghost(n_set_exit), ghost(set_exit_v), ghost(set_exit_val), ghost(n_set_wd), ghost(set_wd_v), ghost(set_wd_val)
